@@ -46,11 +46,16 @@ def field_key_rule(ctx, rule, classes, why):
 def export_pairs(to_json):
     """(key, value expression, node) written under 'params' by a to_json method: subscript stores and dict literal entries"""
     out = []
+    # locals that stand for the 'params' sub-dict:  p = <dict>['params']
+    aliases = {n.targets[0].id for n in ast.walk(to_json.node) if isinstance(n, ast.Assign) and len(n.targets) == 1 and
+               isinstance(n.targets[0], ast.Name) and isinstance(n.value, ast.Subscript) and isinstance(n.value.slice, ast.Constant) and
+               n.value.slice.value == 'params'}
     for n in ast.walk(to_json.node):
         if isinstance(n, ast.Assign) and isinstance(n.targets[0], ast.Subscript):
             t = n.targets[0]
-            if isinstance(t.value, ast.Subscript) and isinstance(t.value.slice, ast.Constant) and t.value.slice.value == 'params' and \
-                    isinstance(t.slice, ast.Constant) and isinstance(t.slice.value, str):
+            under_params = (isinstance(t.value, ast.Subscript) and isinstance(t.value.slice, ast.Constant) and t.value.slice.value == 'params') or \
+                (isinstance(t.value, ast.Name) and t.value.id in aliases)
+            if under_params and isinstance(t.slice, ast.Constant) and isinstance(t.slice.value, str):
                 out.append((t.slice.value, n.value, n))
         elif isinstance(n, ast.Dict):
             for k, v in zip(n.keys, n.values):
